@@ -16,6 +16,6 @@ for src in progs:
                 try:
                     texts["%s|%s|%s" % (u, w, i)] = oneliner.convert_code_string(src, configs=c)
                 except Exception as e:
-                    texts["%s|%s|%s" % (u, w, i)] = None
+                    texts["%s|%s|%s" % (u, w, i)] = {"raised": type(e).__name__}
     out.append(texts)
 json.dump({"version": list(sys.version_info[:3]), "texts": out}, open(sys.argv[3], "w"))
